@@ -74,6 +74,12 @@ func c18Check(to, from ap.Item, mustRefuse string, weak bool) (ds []keyed, outco
 	}
 	if err != nil {
 		c18LastErr = err.Error()
+		// whatever the reason for the refusal: a refused copy leaves `to` as it was
+		if to != nil && !vocab.IsEmptyItem(to) {
+			if d := vocab.ContentDiff(toSnap, to); len(d) > 0 {
+				ds = append(ds, keyed{"copy error to-modified " + gt, "the copy was refused (" + err.Error() + ") but `to` was modified: " + strings.Join(d, "; ")})
+			}
+		}
 		return ds, "error"
 	}
 	if weak {
@@ -322,13 +328,23 @@ func TestC18(t *testing.T) {
 			from, _ := mk(ti.GoType, "https://example.com/1", ti.Name)
 			cases = append(cases, rc{"unsupported-" + string(ti.Name), "unsupported-type", to, from})
 		}
+		// `to` without a type (allowed) and `from` of a type that is not supported, or held in a struct of another family: whether such a
+		// pair is refused the statement leaves open - but a refusal must not have touched `to` first
+		for _, ti := range vocab.GroundTruth {
+			from, _ := mk(ti.GoType, "https://example.com/1", ti.Name)
+			for _, toType := range []string{"Object", "Actor", "Collection"} {
+				to, tv := mk(toType, "https://example.com/1", "")
+				tv.FieldByName("Name").Set(reflect.ValueOf(ap.DefaultNaturalLanguageValue("kept")))
+				cases = append(cases, rc{"untyped-" + toType + "-from-" + string(ti.Name), "", to, from})
+			}
+		}
 		done := 0
 		for _, c := range cases {
 			if !r.WantCell(c.name) {
 				continue
 			}
 			done++
-			ds, _ := c18Check(c.to, c.from, c.reason, false)
+			ds, _ := c18Check(c.to, c.from, c.reason, c.reason == "")
 			r.Case("refusal "+c.name, true, "refusals "+c.reason)
 			reportAll(r, "refusals", c.name, ds, c.name)
 		}
